@@ -576,6 +576,14 @@ class PrintNodeIdentifier(PrintNode):
         else:
             return node.name + "()"
 
+    def visit_Constant(self, node):
+        value = node.value
+        if (self.key.startswith("F_") and len(value) > 1
+            and value[0] == "0" and value.isdigit()):
+            # An octal literal in C/C++; Fortran reads the same text as decimal.
+            return str(int(value, 8))
+        return value
+
 def print_node_identifier(node, symbols, key):
     """Convert node to original string and change identifiers
     """
